@@ -1,6 +1,10 @@
 package main
 
-import "golang.org/x/tools/go/ssa"
+import (
+	"strings"
+
+	"golang.org/x/tools/go/ssa"
+)
 
 func init() { props["C04"] = c04 }
 
@@ -186,6 +190,29 @@ func c04(r *Report) propMeta {
 	})
 	r.ExternalCallers("point-parsers", "pkg/tss", "secp256k1/v4.ParsePubKey", []string{"pkg/tss.Point.publicKey", "pkg/tss/internal/schnorr.ParseSignature", "pkg/tss/internal/schnorr.ParseComplaintSignature"})
 
+	r.Rule("C04.R12", "the daemon-facing query asks, per round, for that round's own submission")
+	pg := "x/tss/keeper.queryServer.PendingGroups"
+	for _, rd := range []struct {
+		status string
+		reads  []string
+	}{
+		{"ROUND_1", []string{"Keeper.GetRound1Info", "Keeper.HasRound1Info"}},
+		{"ROUND_2", []string{"Keeper.GetRound2Info", "Keeper.HasRound2Info"}},
+		{"ROUND_3", []string{"Keeper.GetConfirm", "Keeper.HasConfirm"}},
+		{"ROUND_3", []string{"Keeper.GetComplaintsWithStatus", "Keeper.HasComplaintsWithStatus", "Keeper.HasComplain"}},
+	} {
+		found := false
+		for _, callee := range rd.reads {
+			if fn := w.Fn(pg); fn != nil && len(Calls(fn, callee)) > 0 {
+				found = true
+				r.Gate("pending-"+rd.status+"-checks-own-record", pg, CallEff(callee), []Cond{{Op: "EQL", A: []string{"field:Group.Status"}, B: []string{gs(rd.status)}, Want: true, Desc: "group.Status == " + rd.status}}, GateOpts{})
+			}
+		}
+		if !found {
+			r.Unres("pending-"+rd.status+"|"+rd.reads[0], "PendingGroups looks up the member's "+rd.status+" record", "no call of any of "+strings.Join(rd.reads, ", "))
+		}
+	}
+
 	r.Rule("C04.R11", "E20 event agreement: what the cylinder group workers read is emitted")
 	r.EventAgreement("events", 1, "cylinder/workers/group")
 
@@ -202,6 +229,7 @@ func c04(r *Report) propMeta {
 			"R9 every pkg/tss byte type has exactly one accepted length (Point 33 - compressed only, finding F6 -, Scalar 32, EncSecretShare 48, Signature 65, ComplaintSignature 98): the raw bytes are hashed, a second encoding of the same value would change challenges and symmetric keys",
 			"R10 the errors DecryptSecretShare can return originate only from the ciphertext length check and the AES/HKDF primitives (error-origin census): a value-dependent rejection of the plaintext would turn a complaint about a deliberately out-of-range share into a FAILED complaint (seed C04-5)",
 			"R11 every (event type, attribute key) pair the cylinder group workers read (create_group / round1_success / round2_success . group_id) is emitted by x/tss",
+			"R12 the PendingGroups query, which a restarted cylinder uses to decide what to (re)submit, looks up the round-1 record only while the group is in ROUND_1, the round-2 record only in ROUND_2 and confirm/complaint only in ROUND_3 (seed C04-7: a restarted daemon regenerated its secrets after its commitments were on chain and was blamed)",
 		},
 		Undecided: []string{"that consistent commitments imply a shared key any threshold subset can use (algebra)", "'an honest member is never marked malicious' (needs the algebra behind R3)", "expiry interleavings"},
 		Assume:    []string{"secp256k1 / elgamal / schnorr primitives of pkg/tss", "msg handlers atomic"},
